@@ -460,6 +460,18 @@ def getterCheck (rules : List GRule) (o : Obs) : Option String :=
     some "site=c03.limits a documented limit (15 rules / 15 signers / 5 policies / non-empty) is exceeded"
   else none
 
+def sameSet {α} [BEq α] (a b : List α) : Bool := a.all (b.contains ·) && b.all (a.contains ·)
+
+/-- no two stored rules may have the same type, signer set and policy set (duplicate fingerprint) -/
+def fingerprintCheck (rules : List GRule) : Option String :=
+  let rec go : List GRule → Option String
+    | [] => none
+    | r :: rest =>
+      match rest.find? (fun q => q.ty == r.ty && sameSet q.signers r.signers && sameSet q.policies r.policies) with
+      | some q => some s!"site=c03.fingerprint.duplicate rules {r.id} and {q.id} have identical type, signers and policies"
+      | none => go rest
+  go rules
+
 def monStep (mn : Mon) (opl obs : String) : Mon × Option String :=
   match parseObs obs with
   | none => (mn, some s!"site=c03.parse unparsable observation {obs}")
@@ -480,9 +492,16 @@ def monStep (mn : Mon) (opl obs : String) : Mon × Option String :=
       else if kind = "vset" ∨ kind = "pset" then
         let mn' := { mn with mocks := applySetter mn.mocks ws }
         (mn', getterCheck mn'.rules o)
+      else if kind = "ledger" then
+        -- pure passage of time: nothing may happen to the rule store
+        match getterCheck mn.rules o with
+        | some msg => (mn, some s!"site=c03.idle.changed the rule store changed by the mere passage of time (ledger {o.now}): {msg.replace "site=" "was="}")
+        | none => (mn, none)
       else
         let mn' := if o.ok then { mn with rules := ghostApply mn.rules ws o } else mn
-        (mn', getterCheck mn'.rules o)
+        match getterCheck mn'.rules o with
+        | some msg => (mn', some msg)
+        | none => (mn', if o.ok then fingerprintCheck mn'.rules else none)
     | _ => (mn, getterCheck mn.rules o)
 
 def machine : Machine where
